@@ -6,7 +6,7 @@ from tv.sem import Unsupported
 
 # ---------------------------------------------------------------- Python
 PY_BIN = {ast.Add: '+', ast.Sub: '-', ast.Mult: '*', ast.Mod: '%', ast.LShift: '<<', ast.RShift: '>>', ast.BitAnd: '&', ast.BitOr: '|', ast.BitXor: '^'}
-PY_CMP = {ast.Lt: '<', ast.LtE: '<=', ast.Gt: '>', ast.GtE: '>=', ast.Eq: '==', ast.NotEq: '!='}
+PY_CMP = {ast.Lt: '<', ast.LtE: '<=', ast.Gt: '>', ast.GtE: '>=', ast.Eq: '==', ast.NotEq: '!=', ast.Is: '==', ast.IsNot: '!='}  # `is` only between bool-typed operands in the generated programs
 PY_UN = {ast.Not: 'not', ast.USub: '-', ast.UAdd: '+', ast.Invert: '~'}
 
 
@@ -159,6 +159,23 @@ class CppParser:
 		if t in ('-', '+', '~'):
 			self.eat()
 			return ('un', t, self.unary())
+		if t == 'static_cast':
+			self.eat()
+			self.eat('<')
+			typ = self.eat()
+			self.eat('>')
+			self.eat('(')
+			e = self.expr()
+			self.eat(')')
+			if typ not in ('int', 'bool'):
+				raise Unsupported(f'static_cast<{typ}>')
+			return ('call', typ, [e])
+		if t in ('int', 'bool') and self.peek(1) == '(':
+			self.eat()
+			self.eat('(')
+			e = self.expr()
+			self.eat(')')
+			return ('call', t, [e])
 		if t == '(':
 			self.eat()
 			e = self.expr()
@@ -173,6 +190,8 @@ class CppParser:
 			return ('bool', True)
 		if t == 'false':
 			return ('bool', False)
+		if t in ('std::abs', 'std::min', 'std::max'):
+			t = t[5:]
 		if not re.fullmatch(r'[A-Za-z_]\w*', t):
 			raise Unsupported(f'C++ operand {t!r}')
 		if self.peek() == '(':
